@@ -99,6 +99,53 @@ NlseOK(t) ==
             /\ t.ret = (Abs(last) <= t.S)
             /\ IF t.ret THEN ~t.rmseUnset /\ t.mse2 = Abs(last) ELSE t.rmseUnset
 
+(* ---------------- SimpleFileLogger (include/.../log/SimpleFileLogger.hpp): a sequential state machine whose output is a    *)
+(* file.  Column names are small integers, values integers; a file line is the sequence of its fields, a header line starts  *)
+(* with -1000.  Nothing is recorded or written while no file is open; the first written row is the header, named after the     *)
+(* entries pending at that time (their values are dropped, as coded); every written row clears the pending entries.         *)
+VARIABLES lgOpen, lgCols, lgPending, lgLines
+lgvars == <<lgOpen, lgCols, lgPending, lgLines>>
+LgSetUp(open) == lgOpen' = open /\ lgCols' = <<>> /\ lgPending' = <<>> /\ lgLines' = <<>>
+LgAdd(name, v) == /\ lgPending' = (IF lgOpen THEN Append(lgPending, <<name, v>>) ELSE lgPending)
+                  /\ UNCHANGED <<lgOpen, lgCols, lgLines>>
+LgWrite ==
+  IF ~lgOpen THEN UNCHANGED lgvars
+  ELSE /\ lgOpen' = lgOpen /\ lgPending' = <<>>
+       /\ IF lgCols = <<>>
+            THEN /\ lgCols' = [k \in DOMAIN lgPending |-> lgPending[k][1]]
+                 /\ lgLines' = Append(lgLines, <<-1000>> \o [k \in DOMAIN lgPending |-> lgPending[k][1]])
+            ELSE /\ lgCols' = lgCols
+                 /\ lgLines' = Append(lgLines, [k \in DOMAIN lgPending |-> lgPending[k][2]])
+IsHeader(ln) == Len(ln) > 0 /\ ln[1] = -1000
+\* the first line is a header; once a header has named at least one column no further header is written (an empty row written
+\* first leaves the columns unnamed, so the next row is a header again - as coded)
+LgHeaderFirst == /\ lgLines # <<>> => IsHeader(lgLines[1])
+                 /\ \A j, k \in DOMAIN lgLines : j < k /\ IsHeader(lgLines[j]) /\ Len(lgLines[j]) > 1 => ~IsHeader(lgLines[k])
+
+(* ---------------- angle wrapping (math/EulerAngles.hpp) in eighths of a turn: the result is congruent to the input modulo a *)
+(* turn and lies in the stated range (both ends of [-pi, pi] are legitimate for an input congruent to pi).                    *)
+Wrap02OK(k, j) == j >= 0 /\ j <= 8 /\ (j - k) % 8 = 0 /\ (j = 8 => k % 8 = 0)
+WrapPiOK(k, j) == j >= -4 /\ j <= 4 /\ (j - k) % 8 = 0
+
+(* ---------------- math/Algorithm.hpp on halves (x2 = 2 x so that .5 values are integers) *)
+SignOf(x) == IF x < 0 THEN -1 ELSE 1
+SignedMin(x, y) == IF x >= 0 \/ y >= 0 THEN (IF x < y THEN x ELSE y) ELSE (IF x > y THEN x ELSE y)
+SignedFloor2(x2) == IF x2 >= 0 THEN x2 \div 2 ELSE -((-x2) \div 2)                     \* toward zero
+AlgoOK(t) == /\ t.sign = SignOf(t.x2) /\ t.smin = SignedMin(t.x2, t.y2) /\ t.sfloor = SignedFloor2(t.x2)
+             /\ t.clamp = Clamp(t.x2, t.lo2, t.hi2) /\ t.sclamp = Clamp(t.x2, -Abs(t.y2), Abs(t.y2))
+             /\ t.divHas = (t.y2 # 0) /\ (t.y2 # 0 => (t.x2 % Abs(t.y2) = 0 => t.div = (t.x2 \div Abs(t.y2)) * SignOf(t.y2)))
+
+(* ---------------- Interval<Scalar, DIM> / IntervalComplement (math/Interval.hpp), DIM in {2, 3}: a box, its hull with another, *)
+(* membership (closed), and membership of the complement within limits.                                                        *)
+InBoxN(lo, hi, p) == \A a \in DOMAIN p : lo[a] <= p[a] /\ p[a] <= hi[a]
+MinN(u, v) == [a \in DOMAIN u |-> IF u[a] < v[a] THEN u[a] ELSE v[a]]
+MaxN(u, v) == [a \in DOMAIN u |-> IF u[a] > v[a] THEN u[a] ELSE v[a]]
+IntervalNOK(t) == /\ t.inside = InBoxN(t.lo, t.hi, t.p)
+                  /\ t.width = [a \in DOMAIN t.lo |-> t.hi[a] - t.lo[a]] /\ t.center2 = [a \in DOMAIN t.lo |-> t.hi[a] + t.lo[a]]
+                  /\ t.hullLo = MinN(t.lo, t.lo2) /\ t.hullHi = MaxN(t.hi, t.hi2)
+                  /\ t.hullInside = InBoxN(MinN(t.lo, t.lo2), MaxN(t.hi, t.hi2), t.p)
+                  /\ t.complInside = (~InBoxN(t.lo, t.hi, t.p) /\ InBoxN(t.limLo, t.limHi, t.p))
+
 (* ---------------- durations (nanoseconds as the unit; values kept below 2^31) *)
 FromMicro(us) == us * 1000
 ToMicro(ns) == IF ns >= 0 THEN ns \div 1000 ELSE -((-ns) \div 1000)          \* C++ integer division truncates toward zero
